@@ -111,7 +111,13 @@ impl TryFrom<&str> for OnionV3Address {
 
 	fn try_from(input: &str) -> Result<Self, Self::Error> {
 		// First attempt to decode a pubkey from hex
-		if let Ok(b) = from_hex(input) {
+		// (from_hex panics on a multi-byte character: that is no hex string)
+		let as_hex = if input.is_ascii() {
+			from_hex(input)
+		} else {
+			Err(input.to_owned())
+		};
+		if let Ok(b) = as_hex {
 			if b.len() == 32 {
 				let mut retval = OnionV3Address([0; 32]);
 				retval.0.copy_from_slice(&b[0..32]);
